@@ -11,8 +11,9 @@ if len(sys.argv) > 1:
 def one(seed):
     d = tempfile.mkdtemp(prefix='sm.', dir='/tmp')
     try:
-        subprocess.run(['git', '-C', '/repo', 'worktree', 'add', '-q', '--detach', f'{d}/r', 'HEAD'], check=True)
-        r = subprocess.run(['git', '-C', f'{d}/r', 'apply', f'{V}/seeded/{seed}/patch.diff'], capture_output=True)
+        os.makedirs(f'{d}/r')
+        shutil.copytree('/repo/moPepGen', f'{d}/r/moPepGen', ignore=shutil.ignore_patterns('__pycache__'))
+        r = subprocess.run(['git', 'apply', '--include=moPepGen/*', f'{V}/seeded/{seed}/patch.diff'], cwd=f'{d}/r', capture_output=True)
         if r.returncode:
             return seed, {'error': 'patch does not apply: ' + r.stderr.decode()[:200]}
         out = {}
@@ -23,7 +24,6 @@ def one(seed):
                 out[p] = {'exit': r.returncode, 'rules': rules}
         return seed, out
     finally:
-        subprocess.run(['git', '-C', '/repo', 'worktree', 'remove', '--force', f'{d}/r'], capture_output=True)
         shutil.rmtree(d, ignore_errors=True)
 
 res = {}
